@@ -289,6 +289,8 @@ class _ApplyExprHelpers(ast.NodeTransformer):
         body = lam[0].value.body
         if any(isinstance(x, (ast.Lambda, ast.NamedExpr, ast.ListComp, ast.SetComp, ast.DictComp, ast.GeneratorExp, ast.Await, ast.Yield)) for x in ast.walk(body)):
             return n
+        if sum(1 for x in ast.walk(body) if isinstance(x, ast.IfExp)) > 1:
+            return n        # a helper with several cases stays a call: E2 follows it path by path where a rule needs that
         free = {x.id for x in ast.walk(body) if isinstance(x, ast.Name)} - set(binding)
         if any(f in getattr(self.exp, "_caller_locals", set()) for f in free):
             return n        # a global of the helper that the caller shadows with a local
